@@ -274,6 +274,59 @@ pub fn check(c: &Case, st: &mut Stats) {
     st.sample(|| json!({ "case": c }));
 }
 
+/// States with many occupied sites (PackedState/PotentialState::initialise): 2..60 sites of the
+/// group's general position, every one of them and all its images must come back from the JSON
+/// and be in the drawing.
+pub fn check_many_sites(seed: u64, st: &mut Stats) {
+    use packing::wallpaper::{Wallpaper, WyckoffSite};
+    use packing::CrystalFamily;
+    st.eval();
+    let mut rng = crate::common::rng_for(seed, 1111);
+    let group = groups::NAMES[rng.gen_range(0, 7)];
+    let wg = match libx::lib_group(group) {
+        Ok(g) => g,
+        Err(_) => return,
+    };
+    let general = match WyckoffSite::new(&wg) {
+        Ok(s) => s,
+        Err(_) => return,
+    };
+    let nsites = [2usize, 3, 5, 16, 26, 27, 28, 33, 60][rng.gen_range(0, 9)];
+    let sites = vec![general; nsites];
+    let family = if libx::is_oblique(group) { CrystalFamily::Monoclinic } else { CrystalFamily::Orthorhombic };
+    let cv = json!({ "many_sites_seed": seed });
+    st.nontrivial(hash64(&[1111, seed]));
+    st.count(&format!("states_with_many_sites[{}]", if nsites > 26 { "> 26" } else { "2..26" }));
+    macro_rules! place {
+        ($state:expr, $ty:ty) => {{
+            let mut v = match serde_json::to_value(&$state) {
+                Ok(v) => v,
+                Err(_) => return,
+            };
+            v["cell"]["length"] = json!(rng.gen_range(3., 6.) * (nsites as f64 * 4.).sqrt());
+            for i in 0..nsites {
+                v["occupied_sites"][i]["x"] = json!(rng.gen_range(-0.5, 0.5));
+                v["occupied_sites"][i]["y"] = json!(rng.gen_range(-0.5, 0.5));
+                v["occupied_sites"][i]["angle"] = json!(rng.gen_range(0., 2. * PI));
+            }
+            match serde_json::from_value::<$ty>(v) {
+                Ok(s) => s,
+                Err(_) => return,
+            }
+        }};
+    }
+    if rng.gen_bool(0.3) {
+        let shape = LJShape2::circle();
+        let o = OShape::Discs(shape.items.iter().map(|a| ([a.position.x, a.position.y], a.sigma / 2.)).collect());
+        let s = place!(PotentialState::initialise(shape, Wallpaper { name: group.to_string(), family }, &sites), PotentialState<LJShape2>);
+        roundtrip!(&s, PotentialState<LJShape2>, &cv, st, true, o.clone());
+    } else if let Ok(shape) = LineShape::polygon(rng.gen_range(3, 8)) {
+        let o = shape.oshape();
+        let s = place!(PackedState::initialise(shape, Wallpaper { name: group.to_string(), family }, &sites), PackedState<LineShape>);
+        roundtrip!(&s, PackedState<LineShape>, &cv, st, true, o.clone());
+    }
+}
+
 pub fn gen_case<R: Rng>(rng: &mut R, svg: bool) -> Case {
     let lj = rng.gen_bool(0.4);
     let shape = if lj {
@@ -455,7 +508,7 @@ fn check_transforms_and_custom_groups<R: Rng>(rng: &mut R, st: &mut Stats) {
 }
 
 pub fn run(ctx: &Ctx) {
-    ctx.set_rule("states of both kinds, all groups and shapes with random full-precision parameters (plus the exact ends of each range and one ulp inside them), a share of them optimised first, are serialised with serde_json::to_string, read back with from_str and serialised again: the two texts must be identical and score and Cartesian placements bit-identical; the SVG document is parsed: its <use href=#mol> transforms must be exactly the placements and their 8 nearest lattice images, each once, in matrix(a b c d e f) column order (linear part bit-exact, translation within 1e-12 of the independent lattice), and #mol must be the shape. Bare Transform2 values with arbitrary rotations, and states of user-defined p4/p3/p6 groups (non-symmetric linear parts), go through the same text round trip. The JSON/SVG files written by the real binary get the same treatment (file re-serialises to itself byte for byte, reproduces the logged score bit for bit). Non-trivial = states with >= 3 parameters that are not short decimals; distinct by parameter bits");
+    ctx.set_rule("states of both kinds, all groups and shapes with random full-precision parameters (plus the exact ends of each range and one ulp inside them), a share of them optimised first, are serialised with serde_json::to_string, read back with from_str and serialised again: the two texts must be identical and score and Cartesian placements bit-identical; the SVG document is parsed: its <use href=#mol> transforms must be exactly the placements and their 8 nearest lattice images, each once, in matrix(a b c d e f) column order (linear part bit-exact, translation within 1e-12 of the independent lattice), and #mol must be the shape; the same for states with 2..60 occupied sites (initialise). Bare Transform2 values with arbitrary rotations, and states of user-defined p4/p3/p6 groups (non-symmetric linear parts), go through the same text round trip. The JSON/SVG files written by the real binary get the same treatment (file re-serialises to itself byte for byte, reproduces the logged score bit for bit). Non-trivial = states with >= 3 parameters that are not short decimals; distinct by parameter bits");
     let n = ctx.tier.pick(3_000u64, 250_000u64);
     let nsvg = ctx.tier.pick(60u64, 3_000u64);
     let prev = std::panic::take_hook();
@@ -470,6 +523,9 @@ pub fn run(ctx: &Ctx) {
         for _ in 0..n / 20 {
             check_transforms_and_custom_groups(rng, st);
         }
+        for _ in 0..nsvg / 3 {
+            check_many_sites(rng.gen(), st);
+        }
     });
     std::panic::set_hook(prev);
     let mut st = Stats::new();
@@ -480,7 +536,9 @@ pub fn run(ctx: &Ctx) {
 
 pub fn replay(ctx: &Ctx, case: &Value) {
     let mut st = Stats::new();
-    if let Ok(c) = serde_json::from_value::<Case>(case.clone()) {
+    if let Some(seed) = case["many_sites_seed"].as_u64() {
+        check_many_sites(seed, &mut st);
+    } else if let Ok(c) = serde_json::from_value::<Case>(case.clone()) {
         check(&c, &mut st);
     } else {
         check_cli_files(ctx, &mut st);
